@@ -12,5 +12,6 @@ CONSTANTS
   OptEvery = 4
   ConcEvery = 24
   Conc = 8
+  PinEvery = 6
 INVARIANT Emit
 CHECK_DEADLOCK FALSE
